@@ -88,7 +88,8 @@ structure TI (g : Graph) (t : Nat) (pc : PC) (tr : List Ev) (ce : Bool) (tgv : T
   aft    : ∀ i, pc = .afterCmd i → i < (g.body t).length ∧ Ev.ret t i true ∈ tr
   runB   : ∀ i, pc = .run i → i ≤ (g.body t).length
   clo    : ∀ f, pc = .closing f →
-             (∀ i, i < (g.body t).length → Ev.cmd t i ∈ tr → hasRet tr t i) ∧ (f = false → ce = true)
+             (∀ i, i < (g.body t).length → Ev.cmd t i ∈ tr → hasRet tr t i) ∧
+             (f = false → ce = true ∨ (selfStop g tr t ∧ ∀ j, Ev.cmd t j ∈ tr → cmdDoneOk g tr t j))
   nodone : pc ≠ .finished → ¬ hasDone tr t
   fin    : pc = .finished → hasDone tr t ∧ (Ev.cmd t 0 ∈ tr ∨ ce = true)
   df     : Ev.done t false ∈ tr → ce = true
@@ -223,7 +224,11 @@ theorem TI.frame {g : Graph} {t : Nat} {pc : PC} {tr : List Ev} {ce : Bool} {tgv
     exact ⟨(h.aft i hi).1, List.mem_append_left _ (h.aft i hi).2⟩
   · intro f hf
     refine ⟨fun i hi hc => hasRet_mono es ((h.clo f hf).1 i hi (memOld _ (by simp [touches]) hc)), ?_⟩
-    exact fun hff => hce ((h.clo f hf).2 hff)
+    intro hff
+    rcases (h.clo f hf).2 hff with h1 | ⟨⟨h0, i, hi, hc, hm⟩, h2⟩
+    · exact Or.inl (hce h1)
+    · exact Or.inr ⟨⟨List.mem_append_left _ h0, i, hi, hc, List.mem_append_left _ hm⟩,
+        fun j hj => cmdDoneOk_mono es hd (h2 j (memOld _ (by simp [touches]) hj))⟩
   · intro hp hdn
     apply h.nodone hp
     unfold hasDone at *
